@@ -53,6 +53,9 @@ else:  # pragma: no cover - a second import of this module in one process
   wreq = gc._REGISTRY['vw10.wreq'].wrapper
 
 
+_ALL_PARAM_NAMES = ('a', 'b', 'c', 'd', 'k', 'p', 'q', 'x', 'y', 'z', 'zzz', 'rest', 'self', 'kw', 'v', 'steps', 'seed', 'cls')
+
+
 def _bound(active_s, p_root, v_root, p_s, v_s):
   if active_s and p_s:
     return True, v_s
@@ -62,32 +65,46 @@ def _bound(active_s, p_root, v_root, p_s, v_s):
 
 
 def _parse_missing(msg):
+  """(text, parameter names the message lists, in order).  The wording of the message is Gin's business; the
+  statement only demands that it names the configurable and exactly the unfilled parameters in signature
+  order.  Today's format ("... for `sel` not provided in config: ['b', 'c']") is read as it is; any other
+  wording is read tolerantly: the quoted identifiers of the first line, in order of appearance."""
   with rt.native():
-    i = msg.find('not provided in config: ')
-    if i < 0:
-      return None, None
-    head = msg[:i]
-    tail = msg[i + len('not provided in config: '):].split('\n')[0]
     import ast
-    return head, ast.literal_eval(tail)
+    import re
+    first = msg.split('\n')[0]
+    i = first.find('not provided in config: ')
+    if i >= 0:
+      try:
+        return first, list(ast.literal_eval(first[i + len('not provided in config: '):].strip()))
+      except Exception:   # pylint: disable=broad-except
+        pass
+    quoted = re.findall(r"""['"`]([A-Za-z_][\w./]*)['"`]""", first)
+    return first, quoted
+
+
+def _listed(names):
+  """the parameter names among the names a message lists (other quoted words name the configurable)"""
+  return [n for n in (names or []) if n in _ALL_PARAM_NAMES]
 
 
 def _names_cfg(head, full):
-  """The text between the backticks of the message is an unambiguous spelling of the configurable
-  registered as `full` (it resolves, through the public lookup, to that very configurable)."""
+  """Some quoted (or back-quoted) name in the message is an unambiguous spelling of the configurable registered
+  as `full`: it resolves, through the public lookup, to that very configurable."""
   with rt.native():
+    import re
     if head is None:
       return False
-    i = head.find('`')
-    j = head.find('`', i + 1)
-    if i < 0 or j < 0:
-      return rt.no('no selector between backticks in %r' % (head,))
-    sel = head[i + 1:j].rsplit('/', 1)[-1]      # a scope prefix in the spelling would be fine
-    try:
-      return (gin.get_configurable(sel) is gin.get_configurable(full)) or rt.no(
-          'message names %r, called %r' % (sel, full))
-    except Exception as e:   # ambiguous / unknown / malformed spelling
-      return rt.no('message names %r which does not resolve: %r' % (sel, e))
+    want = gin.get_configurable(full)
+    cands = re.findall(r"""['"`]([A-Za-z_][\w./]*)['"`]""", head)
+    for cand in cands:
+      sel = cand.rsplit('/', 1)[-1]             # a scope prefix in the spelling would be fine
+      try:
+        if gin.get_configurable(sel) is want:
+          return True
+      except Exception:   # pylint: disable=broad-except
+        continue
+    return rt.no('no name in the message resolves to the called configurable %r: %r' % (full, head))
 
 
 def _is_missing_error(exc, missing, short, full):
@@ -97,10 +114,11 @@ def _is_missing_error(exc, missing, short, full):
       return rt.no('expected RuntimeError, got %r' % (exc,))
   head, names = _parse_missing(str(exc))
   with rt.native():
-    if names != missing:
-      return rt.no('names %r, expected %r' % (names, missing))
-    if short is not None and ('`%s`' % short) not in head:
-      return rt.no('head %r' % (head,))
+    # the parameter names the message lists, in order (other quoted words - the configurable - are not parameters)
+    params = set(missing) | set(_ALL_PARAM_NAMES)
+    listed = [n for n in (names or []) if n in params]
+    if listed != list(missing):
+      return rt.no('message lists %r, expected %r (%r)' % (listed, missing, head))
   return _names_cfg(head, full)
 
 
@@ -185,7 +203,7 @@ def c10_req(nonev: int, ins: bool, ma: int, mb: int, mc: int,
       return False
     head, names = _parse_missing(str(exc))
     with rt.native():
-      return names == missing and '`req`' in head and _names_cfg(head, 'vw.req')
+      return _listed(names) == list(missing) and _names_cfg(head, 'vw.req')
   if type_error:
     return isinstance(exc, TypeError) and not world.LOG
   if exc is not None or len(world.LOG) != 1:
@@ -401,7 +419,7 @@ def c10_shapes(shape: int, mx: int, my: int, m2: int, bx: bool, by: bool, b2: bo
         return False
       head, names = _parse_missing(str(exc))
       with rt.native():
-        return names == missing and '`reqkw`' in head and _names_cfg(head, 'vw.reqkw')
+        return _listed(names) == list(missing) and _names_cfg(head, 'vw.reqkw')
     if exc is not None or len(world.LOG) != 1:
       return False
     _, args, kwargs, _ = world.LOG[0]
@@ -430,7 +448,7 @@ def c10_shapes(shape: int, mx: int, my: int, m2: int, bx: bool, by: bool, b2: bo
           return rt.no('expected RuntimeError, got %r' % (exc,))
       head, names = _parse_missing(str(exc))
       with rt.native():
-        return ((names == missing and 'run`' in head and _names_cfg(head, 'vw.ReqM.run'))
+        return ((_listed(names) == list(missing) and _names_cfg(head, 'vw.ReqM.run'))
                 or rt.no('message %r' % str(exc)))
     if exc is not None or len(world.LOG) != 1:
       return False
@@ -455,7 +473,7 @@ def c10_shapes(shape: int, mx: int, my: int, m2: int, bx: bool, by: bool, b2: bo
       return False
     head, names = _parse_missing(str(exc))
     with rt.native():
-      return names == ['b'] and ('`%s`' % cname) in head and _names_cfg(head, 'vw.' + cname)
+      return _listed(names) == ['b'] and _names_cfg(head, 'vw.' + cname)
   if exc is not None or len(world.LOG) != 1:
     return False
   _, args, kwargs, _ = world.LOG[0]
@@ -527,9 +545,10 @@ def c10_callmarks(ma: int, mb: int, md: int, mz: bool, ba: int, bb: bool, bc: bo
       return rt.no('marked non-parameter: body ran')
     if not isinstance(exc, RuntimeError):
       return True
-    head, names = _parse_missing(str(exc))
-    if names is None:
+    if 'not provided in config' not in str(exc):
       return True
+    head, names = _parse_missing(str(exc))
+    names = _listed(names)
     with rt.native():
       if names.count('zzz') != 1:
         return rt.no('zzz not named exactly once: %r' % (names,))
@@ -888,7 +907,7 @@ def c10_history(fn: int, prior: int, nrest: int, mark: int, bound: bool, vk: int
           f(*head)
           return rt.no('the call with k unfilled did not fail')
         except RuntimeError as e:
-          if "['k']" not in str(e):
+          if _listed(_parse_missing(str(e))[1]) != ['k']:
             return rt.no('the failed call named %s' % e)
     del HLOG[:]
   if bound:
@@ -912,7 +931,7 @@ def c10_history(fn: int, prior: int, nrest: int, mark: int, bound: bool, vk: int
         return rt.no('REQUIRED passed for *rest was not rejected: %r %r' % (got, raised))
       return True
     if not bound:
-      if not isinstance(raised, RuntimeError) or "['k']" not in str(raised) or HLOG:
+      if not isinstance(raised, RuntimeError) or _listed(_parse_missing(str(raised))[1]) != ['k'] or HLOG:
         return rt.no('k unfilled, but the call gave %r %r' % (got, raised))
       return True
     if raised is not None:
